@@ -181,7 +181,7 @@ func runC18(c *Ctx) {
 	r.Rule("nil-deref", "dereferences of pointers whose nil-ness depends on the lease file are proved non-nil", 4)
 	r.Rule("insert-guards", "a loaded lease enters the table only when allocated, inside the home subnet and with a client id; net2 only for captured MACs", 5)
 	r.Rule("reset", "New falls back to fresh tables unless the loaded state is complete and matches the configuration", 1)
-	r.Rule("persist", "acknowledged leases are saved; only allocated leases are written", 2)
+	r.Rule("persist", "acknowledged leases are saved; only allocated leases are written; the file is replaced whole", 3)
 
 	const rel = "handlers/dhcp4_spoofer"
 	pk := c.P.Pkg(rel)
@@ -390,6 +390,31 @@ func runC18(c *Ctx) {
 		}
 		r.Add(core.Obligation{Rule: "persist", Key: "persist saveConfig writes allocated leases only", Func: core.FuncName(fn), Pos: c.P.Pos(fn.Pos()), Status: st,
 			Basis: "append to Leases under State == StateAllocated", Detail: "a lease is appended to the saved list without the State == StateAllocated test"})
+	}
+	if fn := c.P.Method(rel, "Handler", "saveConfig"); fn != nil {
+		// the file is rewritten whole: WriteFile, or OpenFile with O_TRUNC among its constant flags
+		okW, how := false, "no write of the lease file found"
+		for _, s := range callsIn(fn, func(string, ssa.CallInstruction) bool { return true }) {
+			switch core.CalleeName(s) {
+			case "io/ioutil.WriteFile", "os.WriteFile":
+				okW, how = true, core.CalleeName(s)
+			case "os.OpenFile", "os.Create":
+				how = core.CalleeName(s)
+				if core.CalleeName(s) == "os.Create" {
+					okW = true
+				} else if k, ok := s.Common().Args[1].(*ssa.Const); ok && k.Int64()&0x200 != 0 { // O_TRUNC on linux
+					okW = true
+				} else {
+					how += " without O_TRUNC"
+				}
+			}
+		}
+		st := core.Proved
+		if !okW {
+			st = core.Violated
+		}
+		r.Add(core.Obligation{Rule: "persist", Key: "persist saveConfig replaces the whole file", Func: core.FuncName(fn), Pos: c.P.Pos(fn.Pos()), Status: st,
+			Basis: "written with " + how, Detail: "the lease file is not truncated when rewritten (" + how + "): when the table shrinks, the tail of the previous table stays in the file and is loaded at the next start"})
 	}
 	if fn := c.P.Method(rel, "Handler", "handleRequest"); fn != nil {
 		// every return of a non-nil reply built by the ACK encoder passes saveConfig
